@@ -49,7 +49,8 @@ def unOfName (s : String) : Except String UnK :=
   | "anyValue" => pure .anyValue | "stddev" => pure .stddev | "variance" => pure .variance | "boolAnd" => pure .boolAnd
   | "boolOr" => pure .boolOr | "groupConcat" => pure .groupConcat | "approxDistinct" => pure .approxDistinct
   | "lag" => pure .lag | "lead" => pure .lead | "firstValue" => pure .firstValue | "lastValue" => pure .lastValue
-  | "subq" => pure .subq | "exists" => pure .exists
+  | "subq" => pure .subq | "exists" => pure .exists | "structField" => pure .structField
+  | "arrayAggElem" => pure .arrayAggElem | "mapElem" => pure .mapElem
   | s =>
     if s.startsWith "cast_" then do pure (.cast (← tyOfName (s.drop 5).toString))
     else if s.startsWith "tryCast_" then do pure (.tryCast (← tyOfName (s.drop 8).toString))
@@ -62,7 +63,8 @@ def binOfName (s : String) : Except String BinK :=
   | "ge" => pure .ge | "and" => pure .and | "or" => pure .or | "dpipe" => pure .dpipe | "like" => pure .like
   | "coalesce" => pure .coalesce | "nullif" => pure .nullif | "concat" => pure .concat | "greatest" => pure .greatest
   | "least" => pure .least | "corr" => pure .corr | "isDistinct" => pure .isDistinct | "ilike" => pure .ilike
-  | "arrayElem" => pure .arrayElem
+  | "arrayElem" => pure .arrayElem | "unionCol" => pure .unionCol
+  | "listConcatElem" => pure .listConcatElem | "sliceElem" => pure .sliceElem | "unnest2" => pure .unnest2
   | _ => throw ("bin " ++ s)
 
 def ternOfName (s : String) : Except String TernK :=
